@@ -22,6 +22,12 @@ MUTANTS = [
     ("ignored-blocker-ignorable", "C13", "is_ignored", "mypy/errors.py", "if info.blocker:\n            # Blocking errors can never be ignored\n            return False", "if info.blocker and info.code is None:\n            # Blocking errors can never be ignored\n            return False", "violation"),
     ("used-ignore-marked-for-disabled-code", "C13", "add_error", "mypy/errors.py", "if not self.is_error_code_enabled(err_code):\n                            # Error code is disabled - don't mark the current\n                            # \"type: ignore\" comment as used.\n                            return", "if False:\n                            return", "violation"),
     ("add-error-blocker-in-ignored-file", "C13", "add_error", "mypy/errors.py", "            if file in self.ignored_files:\n                return\n        if info.only_once:", "        if file in self.ignored_files:\n            return\n        if info.only_once:", "violation"),
+    ("ipc-frame-slice-off-by-one", "C16", "ipc", "mypy/ipc.py", "bdata = memoryview(self.buffer)[HEADER_SIZE : HEADER_SIZE + self.message_size]", "bdata = memoryview(self.buffer)[HEADER_SIZE : HEADER_SIZE + self.message_size - 1]", "violation"),
+    ("ipc-stale-message-size", "C16", "ipc", "mypy/ipc.py", "        self.buffer = self.buffer[HEADER_SIZE + self.message_size :]\n        self.message_size = None\n", "        self.buffer = self.buffer[HEADER_SIZE + self.message_size :]\n", "violation"),
+    ("ipc-header-little-endian", "C16", "ipc", "mypy/ipc.py", 'encoded_data = struct.pack("!L", len(data)) + data', 'encoded_data = struct.pack("!L", len(data) + 0) + data[0:]', "pass"),
+    ("serve-send-oserror-not-caught", "C16", "serve", "mypy/dmypy_server.py", "                    except OSError:\n                        pass  # Maybe the client hung up", "                    except ConnectionResetError:\n                        pass  # Maybe the client hung up", "violation"),
+    ("serve-status-file-kept-on-sysexit", "C16", "serve", "mypy/dmypy_server.py", '            if command != "stop":\n                os.unlink(self.status_file)', '            if command != "stop" and sys.exc_info()[0] is not SystemExit:\n                os.unlink(self.status_file)', "violation"),
+    ("receive-non-dict-accepted", "C16", "util.receive", "mypy/dmypy_util.py", "    if not isinstance(data, dict):\n        raise OSError", "    if False:\n        raise OSError", "violation"),
     ("enabled-parent-check-dropped", "C13", "is_error_code_enabled", "mypy/errors.py", "elif error_code.sub_code_of is not None and error_code.sub_code_of in current_mod_disabled:\n            return False", "elif error_code.sub_code_of is not None and error_code.sub_code_of in current_mod_enabled:\n            return False", "violation"),
 ]
 
@@ -48,7 +54,7 @@ def run(m, keep=False):
         for f in glob.glob(os.path.join(out, "replays", prop, "*.json")):
             d = json.load(open(f))
             nr = d.get("native_replay") or {}
-            reps.append(("confirmed" if nr.get("confirmed") else "unconfirmed") + (": " + str(nr.get("note") or nr.get("state_mismatch") or nr.get("observed"))[:160] if os.environ.get("MUT_VERBOSE") else ""))
+            reps.append(("confirmed" if nr.get("confirmed") else "unconfirmed") + (": " + str(nr.get("note") or nr.get("state_mismatch") or nr.get("observed"))[:420] if os.environ.get("MUT_VERBOSE") else ""))
         if reps:
             detail += "  [replays: " + "; ".join(sorted(reps)) + "]"
         if not ok:
